@@ -160,9 +160,18 @@ func symPropfindBody(hdr http.Header) (xmlBody interface{}, xmlBroken bool, rawB
 		xmlBroken = true
 		malformed = true
 	case 2:
-		hdr.Set("Content-Type", "application/xml; charset=utf-8")
+		switch vrt.Choose("propfind-content-type", 3) {
+		case 0:
+			hdr.Set("Content-Type", "application/xml; charset=utf-8")
+		case 1:
+			hdr.Set("Content-Type", "text/xml")
+		case 2:
+			// a media type parameter without a value: not a valid Content-Type
+			hdr.Set("Content-Type", "text/xml;charset")
+			malformed = true
+		}
 		pf := &internal.PropFind{}
-		switch vrt.Choose("propfind-form", 4) {
+		switch vrt.Choose("propfind-form", 6) {
 		case 0:
 			pf.AllProp = &struct{}{}
 		case 1:
@@ -170,6 +179,15 @@ func symPropfindBody(hdr http.Header) (xmlBody interface{}, xmlBroken bool, rawB
 		case 2:
 			pf.Prop = &internal.Prop{Raw: []internal.RawXMLValue{*internal.NewRawXMLElement(internal.GetETagName, nil, nil), *internal.NewRawXMLElement(xml.Name{Space: "urn:x", Local: "unknown"}, nil, nil)}}
 		case 3:
+			malformed = true
+		case 4:
+			// propname, allprop and prop are mutually exclusive (RFC 4918 14.20)
+			pf.AllProp = &struct{}{}
+			pf.PropName = &struct{}{}
+			malformed = true
+		case 5:
+			pf.AllProp = &struct{}{}
+			pf.Prop = &internal.Prop{Raw: []internal.RawXMLValue{*internal.NewRawXMLElement(internal.GetETagName, nil, nil)}}
 			malformed = true
 		}
 		xmlBody = pf
@@ -292,9 +310,110 @@ func VerifH_C13_FileServer() {
 	}
 }
 
-type verifHomeSet struct{ name xml.Name }
+type verifHomeSet struct {
+	XMLName xml.Name
+	Href    internal.Href `xml:"DAV: href"`
+}
 
-func (h *verifHomeSet) GetXMLName() xml.Name { return h.name }
+func (h *verifHomeSet) GetXMLName() xml.Name { return h.XMLName }
+
+// VerifH_C11_Principal: the PROPFIND answer of ServePrincipal with two home
+// sets accounts for every property exactly once: each home set under its own
+// name with its own value, current-user-principal, resourcetype; a property
+// the principal does not have under 404; propname lists all names.
+func VerifH_C11_Principal() {
+	internal.VerifResetWire()
+	hsA := &verifHomeSet{XMLName: xml.Name{Space: "urn:x", Local: "home-set-a"}, Href: internal.Href{Path: "/u/a/"}}
+	hsB := &verifHomeSet{XMLName: xml.Name{Space: "urn:y", Local: "home-set-b"}, Href: internal.Href{Path: "/u/b/"}}
+	opts := &ServePrincipalOptions{CurrentUserPrincipalPath: "/u/", HomeSets: []BackendSuppliedHomeSet{hsA, hsB}}
+	unknown := xml.Name{Space: "urn:x", Local: "unknown"}
+	candidates := []xml.Name{hsA.XMLName, hsB.XMLName, internal.CurrentUserPrincipalName, internal.ResourceTypeName, unknown}
+	pf := &internal.PropFind{}
+	var requested []xml.Name
+	form := vrt.Choose("form", 3)
+	switch form {
+	case 0:
+		pf.AllProp = &struct{}{}
+	case 1:
+		pf.PropName = &struct{}{}
+	case 2:
+		var raws []internal.RawXMLValue
+		for i, n := range candidates {
+			if vrt.Bool("request-" + string(rune('0'+i))) {
+				requested = append(requested, n)
+				raws = append(raws, *internal.NewRawXMLElement(n, nil, nil))
+			}
+		}
+		pf.Prop = &internal.Prop{Raw: raws}
+	}
+	hdr := http.Header{}
+	hdr.Set("Content-Type", "text/xml")
+	r := verifXMLRequest("PROPFIND", "/u/", hdr, pf, false, "", false)
+	rec := newVerifRecorder()
+	ServePrincipal(rec, r, opts)
+	vrt.Assert(rec.code == 207, "PROPFIND on the principal is answered 207")
+	var ms *internal.MultiStatus
+	if vrt.Symbolic() {
+		ms = internal.VerifServed
+	} else if rec.code == 207 {
+		ms = &internal.MultiStatus{}
+		if err := xml.Unmarshal([]byte(rec.body()), ms); err != nil {
+			vrt.Fail("207 body is not a readable multi-status: " + err.Error())
+		}
+	}
+	if ms == nil || len(ms.Responses) != 1 {
+		vrt.Fail("principal: exactly one response")
+		return
+	}
+	entries := internal.VerifEntriesOf(&ms.Responses[0])
+	available := candidates[:4]
+	count := func(n xml.Name, code int) int {
+		k := 0
+		for _, e := range entries {
+			if e.Name == n && e.Code == code {
+				k++
+			}
+		}
+		return k
+	}
+	total := func(n xml.Name) int {
+		k := 0
+		for _, e := range entries {
+			if e.Name == n {
+				k++
+			}
+		}
+		return k
+	}
+	switch form {
+	case 0, 1:
+		for _, n := range available {
+			vrt.Assert(count(n, 200) == 1 && total(n) == 1, "principal: every available property is listed exactly once under 200")
+		}
+		vrt.Assert(len(entries) == len(available), "principal: nothing but the available properties is listed")
+	case 2:
+		for _, n := range requested {
+			want := 200
+			if n == unknown {
+				want = 404
+			}
+			vrt.Assert(count(n, want) == 1 && total(n) == 1, "principal: every requested property is accounted for exactly once, under 200 if available and 404 if not")
+		}
+		vrt.Assert(len(entries) == len(requested), "principal: nothing but the requested properties is reported")
+	}
+	if vrt.Symbolic() && form != 1 {
+		// each home set is reported with its own value
+		for _, e := range entries {
+			if e.Name == hsA.XMLName && e.Code == 200 {
+				vrt.Assert(e.Val == interface{}(hsA), "principal: home set reported with its own value")
+			}
+			if e.Name == hsB.XMLName && e.Code == 200 {
+				vrt.Assert(e.Val == interface{}(hsB), "principal: home set reported with its own value")
+			}
+		}
+	}
+	vrt.Reach("principal-accounting")
+}
 
 // VerifH_C13_Principal: ServePrincipal for every method and PROPFIND body
 // interpretation: no panic, malformed gets 400, the answer is one response
@@ -315,7 +434,7 @@ func VerifH_C13_Principal() {
 	opts := &ServePrincipalOptions{CurrentUserPrincipalPath: "/u/" + vrt.Str("user") + "/", Capabilities: []Capability{"calendar-access"}}
 	nhs := vrt.Choose("home-sets", 3)
 	for i := 0; i < nhs; i++ {
-		opts.HomeSets = append(opts.HomeSets, &verifHomeSet{name: xml.Name{Space: "urn:x", Local: "home-set-" + string(rune('a'+i))}})
+		opts.HomeSets = append(opts.HomeSets, &verifHomeSet{XMLName: xml.Name{Space: "urn:x", Local: "home-set-" + string(rune('a'+i))}})
 	}
 	hdr := http.Header{}
 	var xmlBody interface{}
